@@ -863,6 +863,16 @@ func cmdStress(path string, seed int64, rounds int) {
 			}
 		}
 		w.unhook()
+		// the hooks carry no client: an event is attributed to the world that is current when it fires.  A goroutine of
+		// THIS client that is still on its way (the CAPABILITY command the client issues on its own) must be gone
+		// before the next world starts, or its events - with tags the next world uses as well - end up in that world's
+		// log (seen once in 1500 rounds of the thorough tier: "T18 completed twice")
+		for deadline := time.Now().Add(2 * time.Second); time.Now().Before(deadline); time.Sleep(100 * time.Microsecond) {
+			buf := make([]byte, 1<<20)
+			if !bytes.Contains(buf[:runtime.Stack(buf, true)], []byte("go-imap/v2/imapclient.")) {
+				break
+			}
+		}
 		enc.Encode(map[string]interface{}{"ev": "Reset", "mode": mode})
 		records++
 		for _, e := range log {
